@@ -95,10 +95,33 @@ def check_local(ctx, facts, b):
         e = flow.expr_of(b, t["args"][0])
         if "front_mut" in str(e):
             front_cr = bb
+    sw_map = None
+    if front_cr is None:
+        # `let head_ready = active.front_mut().map(|item| item.check_ready(cx)); match head_ready { Some(true) => .. }`:
+        # the readiness test is the bool payload of the mapped Option
+        old_cd = flow.CLOSURE_DEFS
+        flow.CLOSURE_DEFS = True
+        try:
+            for mbb, mt in flow.find_calls(b, re.compile(r"Option::<T>::map$")):
+                ce = flow.expr_of(b, mt["args"][1], max_depth=4)
+                cb_ = facts.bodies.get(ce[1][1]) if ce[0] == "agg" and isinstance(ce[1], tuple) and ce[1][0] == "closure" else None
+                if cb_ is None or "front_mut" not in str(flow.expr_of(b, mt["args"][0], max_depth=6)) or not deque_ready_calls(cb_):
+                    continue
+                r_ = flow.strip_casts(flow.expr_of(cb_, {"cp": [0]}, max_depth=6))
+                if not (r_[0] == "call" and r_[1].endswith("::check_ready") and flow.strip_casts(r_[2][0])[:2] == ("arg", 2)):
+                    continue
+                for sb_ in sorted(b.live_blocks()):
+                    tt_ = b.term(sb_)
+                    if tt_["k"] == "switch":
+                        se_ = flow.expr_of(b, tt_["o"], max_depth=8)
+                        if se_[0] == "proj" and "as:Some" in str(se_[2:]) and se_[1][0] == "call" and se_[1][1].endswith("Option::<T>::map") and "front_mut" in str(se_[1]):
+                            front_cr, sw_map = mbb, sb_
+        finally:
+            flow.CLOSURE_DEFS = old_cd
     if not pops or front_cr is None:
         ctx.missing("GUARD-pop", "pop_front / check_ready(front) in poll_next")
     else:
-        sw = flow.next_switch(b, b.term(front_cr)["t"])
+        sw = sw_map if sw_map is not None else flow.next_switch(b, b.term(front_cr)["t"])
         ed = flow.switch_edges(b, sw) if sw is not None else None
         for n, p in enumerate(pops):
             ok = ed is not None and flow.dominates(dom, ed[1], p) and not flow.dominates(dom, ed[0], p)
@@ -220,6 +243,14 @@ def wake1(ctx, facts, b, dom, exception):
             ed = flow.switch_edges(b, sw) if sw is not None else None
             if ed and flow.dominates(dom, ed[0], bb):
                 on_not_done = True
+            elif ed and sw is not None:
+                # reach-avoid form (match arms may share the Pending block): without a waker-registering poll, this
+                # Pending is reachable only through the `not done` edge of is_done()
+                bad_, reg_ = wake.unregistered_pending(b)
+                stops = frozenset(x for x in reg_ if b.term(x)["k"] == "call")
+                r_ = b.reachable(0, avoid=stops, avoid_edges=frozenset({(sw, ed[0])}))
+                if bb not in r_ and ed[0] != ed[1]:
+                    on_not_done = True
         src_polls = [pb for pb, pt in flow.find_calls(b, re.compile(r"Stream::poll_next$")) if "source" in flow.field_names_in(flow.expr_of(b, pt["args"][0]))]
         if exception == "local":
             ctor = facts.bodies.get("seq_join::local::SequentialFutures::<'_, S, F>::new")
